@@ -47,6 +47,9 @@ structure Col where
 structure TableSchema where
   name : String
   cols : List Col
+  /-- multi-column UNIQUE / PRIMARY KEY constraints, as lists of column indices
+      (a single-column one may also be given by the column's `unique` flag) -/
+  uniques : List (List Nat) := []
   deriving Repr
 
 abbrev Catalog := List TableSchema
@@ -138,8 +141,8 @@ def SOut.isErr : SOut → Bool
 inductive Out where
   | ok
   | stmt (o : SOut)
-  /-- commit refused (write-write conflict) -/
-  | conflict
+  /-- commit refused: write-write `conflict`, or `constraint` (the committed database would violate one) -/
+  | refused (e : Err)
   | noSession
   | batch (outs : List SOut)
   | batchErr (e : Err)
@@ -200,16 +203,183 @@ def notNullOk : List Col → List Val → Bool
   | c :: cs, v :: vs => (!(c.notNull && v == .null)) && notNullOk cs vs
   | _, _ => true
 
-/-- is there a visible row of `table`, other than `self`, carrying `x` in column `i`? (NULL never collides) -/
-def dupIn (v : View) (table : String) (self : Option Rid) (i : Nat) (x : Val) : Bool :=
-  x != .null && v.any (fun r => r.table == table && some r.rid != self && r.vals.getD i .null == x)
+def singleKeys : List Col → Nat → List (List Nat)
+  | [], _ => []
+  | c :: cs, i => if c.unique then [i] :: singleKeys cs (i + 1) else singleKeys cs (i + 1)
 
-def uniqueOkAux (v : View) (table : String) (self : Option Rid) : List Col → List Val → Nat → Bool
-  | c :: cs, x :: xs, i => (!(c.unique && dupIn v table self i x)) && uniqueOkAux v table self cs xs (i + 1)
-  | _, _, _ => true
+/-- the UNIQUE / PRIMARY KEY constraints of a table, each a list of column indices -/
+def TableSchema.keySets (ts : TableSchema) : List (List Nat) := singleKeys ts.cols 0 ++ ts.uniques
 
-def uniqueOk (v : View) (ts : TableSchema) (self : Option Rid) (vals : List Val) : Bool :=
-  uniqueOkAux v ts.name self ts.cols vals 0
+def keyOf (cols : List Nat) (vals : List Val) : List Val := cols.map (fun i => vals.getD i .null)
+
+/-- is there a visible row of `table`, other than `self`, with the same key on `cols`?  (a key containing NULL never collides) -/
+def dupKey (v : View) (table : String) (self : Option Rid) (cols : List Nat) (vals : List Val) : Bool :=
+  !(keyOf cols vals).contains .null &&
+    v.any (fun r => r.table == table && some r.rid != self && keyOf cols r.vals == keyOf cols vals)
+
+structure Defects where
+  /-- `Tuple::add_version_with` writes the header `(original xmin, xmax = None)`: every version carries the inserter's
+      id, is built on the latest physical values and clears the delete mark (pinned by `test_session_rollback_updates`) -/
+  updateKeepsInserterXmin : Bool := false
+  /-- `record_write` is never called: write sets are empty, commit validation cannot fail -/
+  writeSetNeverRecorded : Bool := false
+  /-- `Snapshot.xmax = None` while `last_committed = 0` (fixed) -/
+  xmaxNoneSeesAll : Bool := false
+  /-- `parse_for_snapshot` walks the deltas of a row the reader itself deleted (fixed) -/
+  ownDeleteWalksDeltas : Bool := false
+  /-- `Tuple::delete` returns early when a delete mark exists, even a rolled-back one (fixed) -/
+  deleteKeepsStaleXmax : Bool := false
+  /-- the header has one `xmax` slot: a second deleter overwrites the first one's mark -/
+  deleteMarkSingleSlot : Bool := false
+  /-- a statement failing inside a session keeps the effects of the rows processed before the failure -/
+  stmtNotAtomicInSession : Bool := false
+  /-- the unique index is not touched when an UPDATE changes an indexed column: the old key stays blocked, the new
+      key is not registered (pinned by `test_index_maintained_on_update`) -/
+  indexNotMaintainedOnKeyUpdate : Bool := false
+  /-- the unique index holds one entry per key: an INSERT that finds a live entry (of a transaction it does not see)
+      adds nothing, one that finds a delete-marked entry replaces it, a DELETE marks whatever entry carries the key -/
+  indexOneEntryPerKey : Bool := false
+  /-- uniqueness is only probed when a statement runs, against the statement's snapshot; nothing is re-checked at
+      commit, so two open transactions inserting the same key both commit -/
+  uniqueNotRecheckedAtCommit : Bool := false
+  deriving Repr
+
+def Defects.none : Defects := {}
+
+/-- with one of the index defects on, uniqueness is decided by probing the (deviating) physical index -/
+def Defects.usesIndex (D : Defects) : Bool := D.indexNotMaintainedOnKeyUpdate || D.indexOneEntryPerKey
+
+structure Snapshot where
+  xid : Nat
+  xmax : Option Nat
+  active : List Nat
+  aborted : List Nat
+  deriving Repr
+
+/-- `Snapshot::is_committed_before_snapshot` -/
+def Snapshot.cb (s : Snapshot) (t : Nat) : Bool :=
+  (match s.xmax with
+   | some m => !(decide (m < t))
+   | none => true) && !s.active.contains t && !s.aborted.contains t
+
+/-- `t`'s work is visible to `s`: own or committed before -/
+def Snapshot.sees (s : Snapshot) (t : Nat) : Bool := t == s.xid || s.cb t
+
+/-! ### the physical unique index (only consulted when an index defect is switched on) -/
+
+structure IxEntry where
+  table : String
+  cols : List Nat
+  key : List Val
+  rid : Rid
+  xmin : Nat
+  xmax : Option Nat
+  deriving Repr
+
+abbrev Index := List IxEntry
+
+def IxEntry.is (e : IxEntry) (table : String) (cols : List Nat) (key : List Val) : Bool :=
+  e.table == table && e.cols == cols && e.key == key
+
+/-- `parse_for_snapshot` on an index entry (a tuple without history) -/
+def IxEntry.visible (s : Snapshot) (e : IxEntry) : Bool :=
+  (match e.xmax with
+   | some x => !(s.sees x)
+   | none => true) && s.sees e.xmin
+
+/-- `ConstraintValidator::search_index` -/
+def ixProbe (D : Defects) (s : Snapshot) (ix : Index) (table : String) (cols : List Nat) (vals : List Val)
+    (self : Option Rid) : Bool :=
+  let k := keyOf cols vals
+  !k.contains .null &&
+    (if D.indexOneEntryPerKey then
+      match ix.find? (fun e => e.is table cols k) with
+      | some e => e.visible s && some e.rid != self
+      | none => false
+    else ix.any (fun e => e.is table cols k && e.visible s && some e.rid != self))
+
+def replaceFirst (p : IxEntry → Bool) (new : IxEntry) : Index → Index
+  | [] => []
+  | e :: es => if p e then new :: es else e :: replaceFirst p new es
+
+/-- index maintenance of an INSERT (`maintain_secondary_indexes`, insert arm) -/
+def ixInsert (D : Defects) (me : Nat) (ix : Index) (table : String) (cols : List Nat) (vals : List Val) (rid : Rid) :
+    Index :=
+  let k := keyOf cols vals
+  let new : IxEntry := ⟨table, cols, k, rid, me, none⟩
+  if k.contains .null then ix
+  else if D.indexOneEntryPerKey then
+    match ix.find? (fun e => e.is table cols k) with
+    | some e => if e.xmax.isSome then replaceFirst (fun e => e.is table cols k) new ix else ix
+    | none => ix ++ [new]
+  else ix ++ [new]
+
+/-- index maintenance of a DELETE (delete arm): the entry found under the key gets the delete mark if it is visible -/
+def ixDelete (D : Defects) (s : Snapshot) (ix : Index) (table : String) (cols : List Nat) (vals : List Val) (rid : Rid) :
+    Index :=
+  let k := keyOf cols vals
+  if k.contains .null then ix
+  else ix.map (fun e =>
+    if e.is table cols k && (D.indexOneEntryPerKey || e.rid == rid) && e.visible s then { e with xmax := some s.xid }
+    else e)
+
+def ixUpdate (D : Defects) (s : Snapshot) (ix : Index) (table : String) (cols : List Nat) (old new : List Val)
+    (rid : Rid) : Index :=
+  if D.indexNotMaintainedOnKeyUpdate then ix
+  else if keyOf cols old == keyOf cols new then ix
+  else ixInsert D s.xid (ixDelete D s ix table cols old rid) table cols new rid
+
+/-- the index after one row-level effect; `v` = the writer's view before the effect -/
+def ixApply (D : Defects) (cat : Catalog) (s : Snapshot) (v : View) (ix : Index) : Effect → Index
+  | .ins rid t vals =>
+    match findTable cat t with
+    | none => ix
+    | some ts => ts.keySets.foldl (fun ix cols => ixInsert D s.xid ix t cols vals rid) ix
+  | .upd rid c x =>
+    match v.find? (fun r => r.rid == rid) with
+    | none => ix
+    | some r =>
+      match findTable cat r.table with
+      | none => ix
+      | some ts => ts.keySets.foldl (fun ix cols => ixUpdate D s ix r.table cols r.vals (r.vals.set c x) rid) ix
+  | .del rid =>
+    match v.find? (fun r => r.rid == rid) with
+    | none => ix
+    | some r =>
+      match findTable cat r.table with
+      | none => ix
+      | some ts => ts.keySets.foldl (fun ix cols => ixDelete D s ix r.table cols r.vals rid) ix
+
+def ixApplyAll (D : Defects) (cat : Catalog) (s : Snapshot) : View → Index → List Effect → Index
+  | _, ix, [] => ix
+  | v, ix, e :: es => ixApplyAll D cat s (v.apply e) (ixApply D cat s v ix e) es
+
+/-- how a statement decides uniqueness: `none` = against its view (specification);
+    `some` = by probing the physical index, as the code does (only with an index defect on) -/
+structure Probe where
+  D : Defects
+  s : Snapshot
+  cat : Catalog
+  ix : Index
+
+def Probe.step (pb : Option Probe) (v : View) (e : Effect) : Option Probe :=
+  pb.map (fun p => { p with ix := ixApply p.D p.cat p.s v p.ix e })
+
+/-- the UPDATE arm of `maintain_secondary_indexes` as shipped: for an index containing the updated column `ci` it
+    fails with a type error — after the row was rewritten — when the old key contains NULL (the old entry cannot be
+    built) or when the column before `ci` belongs to the same index (it looks the assignment up under the wrong
+    index and compares it with that column's type); otherwise it changes nothing -/
+def ixUpdateFails (pb : Option Probe) (ts : TableSchema) (ci : Nat) (old : List Val) : Bool :=
+  match pb with
+  | none => false
+  | some p => p.D.indexNotMaintainedOnKeyUpdate &&
+      ts.keySets.any (fun K => K.contains ci && ((keyOf K old).contains .null || (ci ≥ 1 && K.contains (ci - 1))))
+
+/-- UNIQUE / PRIMARY KEY check of a candidate row (`validate_unique_constraints`): every key set of the table -/
+def uniqueOk (pb : Option Probe) (v : View) (ts : TableSchema) (self : Option Rid) (vals : List Val) : Bool :=
+  match pb with
+  | none => ts.keySets.all (fun cols => !dupKey v ts.name self cols vals)
+  | some p => ts.keySets.all (fun cols => !ixProbe p.D p.s p.ix ts.name cols vals self)
 
 /-- result of planning: effects emitted so far, output (an `err` output = the statement failed after emitting `effs`) -/
 structure Plan where
@@ -225,17 +395,17 @@ def Plan.cons (e : Effect) (p : Plan) : Plan :=
 
 /-- INSERT, row by row: cast, NOT NULL, UNIQUE (against the view including the rows inserted so far), insert.
     `j` = index of the next inserted row within the operation. -/
-def planIns (ts : TableSchema) (clock : Nat) : View → List (List Val) → Nat → Plan
-  | _, [], _ => ⟨[], .okN 0⟩
-  | v, r :: rs, j =>
+def planIns (ts : TableSchema) (clock : Nat) : Option Probe → View → List (List Val) → Nat → Plan
+  | _, _, [], _ => ⟨[], .okN 0⟩
+  | pb, v, r :: rs, j =>
     match castRow ts.cols r with
     | .error e => ⟨[], .err e⟩
     | .ok r' =>
       if !notNullOk ts.cols r' then ⟨[], .err .constraint⟩
-      else if !uniqueOk v ts none r' then ⟨[], .err .constraint⟩
+      else if !uniqueOk pb v ts none r' then ⟨[], .err .constraint⟩
       else
         let e := Effect.ins (clock, j) ts.name r'
-        (planIns ts clock (v.apply e) rs (j + 1)).cons e
+        (planIns ts clock (Probe.step pb v e) (v.apply e) rs (j + 1)).cons e
 
 /-- new value of the assigned column for one row -/
 def newValue (c : Col) (add : Bool) (x : Val) (cur : Val) : Except Err Val :=
@@ -250,19 +420,20 @@ def newValue (c : Col) (add : Bool) (x : Val) (cur : Val) : Except Err Val :=
 
 /-- UPDATE over the rows of the scan (the view at statement start), checks against the evolving view. -/
 def planUpd (ts : TableSchema) (ci : Nat) (c : Col) (add : Bool) (x : Val) (p : Option (Nat × CmpOp × Val)) :
-    View → List ARow → Plan
-  | _, [] => ⟨[], .okN 0⟩
-  | v, r :: rs =>
+    Option Probe → View → List ARow → Plan
+  | _, _, [] => ⟨[], .okN 0⟩
+  | pb, v, r :: rs =>
     if r.table == ts.name && rowMatches p r.vals then
       match newValue c add x (r.vals.getD ci .null) with
       | .error e => ⟨[], .err e⟩
       | .ok nv =>
         if c.notNull && nv == .null then ⟨[], .err .constraint⟩
-        else if c.unique && dupIn v ts.name (some r.rid) ci nv then ⟨[], .err .constraint⟩
+        else if !uniqueOk pb v ts (some r.rid) (r.vals.set ci nv) then ⟨[], .err .constraint⟩
         else
           let e := Effect.upd r.rid ci nv
-          (planUpd ts ci c add x p (v.apply e) rs).cons e
-    else planUpd ts ci c add x p v rs
+          if ixUpdateFails pb ts ci r.vals then ⟨[e], .err .type⟩
+          else (planUpd ts ci c add x p (Probe.step pb v e) (v.apply e) rs).cons e
+    else planUpd ts ci c add x p pb v rs
 
 def planDel (t : String) (p : Option (Nat × CmpOp × Val)) : List ARow → Plan
   | [] => ⟨[], .okN 0⟩
@@ -275,7 +446,7 @@ def evalQuery (t : String) (p : Option (Nat × CmpOp × Val)) (v : View) : List 
   (v.filter (fun r => r.table == t && rowMatches p r.vals)).map (·.vals)
 
 /-- Plans one statement against view `v`.  `j0` = number of rows already inserted by this operation (batches). -/
-def planStmt (cat : Catalog) (clock : Nat) (j0 : Nat) (v : View) : Stmt → Plan
+def planStmt (pb : Option Probe) (cat : Catalog) (clock : Nat) (j0 : Nat) (v : View) : Stmt → Plan
   | .sel t p =>
     match findTable cat t with
     | none => ⟨[], .err .notfound⟩
@@ -287,7 +458,7 @@ def planStmt (cat : Catalog) (clock : Nat) (j0 : Nat) (v : View) : Stmt → Plan
     | none => ⟨[], .err .notfound⟩
     | some ts =>
       if rows.any (fun r => r.length != ts.cols.length) then ⟨[], .err .other⟩
-      else planIns ts clock v rows j0
+      else planIns ts clock pb v rows j0
   | .upd t col add x p =>
     match findTable cat t with
     | none => ⟨[], .err .notfound⟩
@@ -295,7 +466,7 @@ def planStmt (cat : Catalog) (clock : Nat) (j0 : Nat) (v : View) : Stmt → Plan
       | none => ⟨[], .err .notfound⟩
       | some (ci, c) => match bindPred ts p with
         | .error e => ⟨[], .err e⟩
-        | .ok bp => planUpd ts ci c add x bp v v
+        | .ok bp => planUpd ts ci c add x bp pb v v
   | .del t p =>
     match findTable cat t with
     | none => ⟨[], .err .notfound⟩
@@ -307,6 +478,12 @@ def countIns : List Effect → Nat
   | [] => 0
   | .ins _ _ _ :: es => countIns es + 1
   | _ :: es => countIns es
+
+/-- every row satisfies NOT NULL, and no two rows of a table agree on a (fully non-NULL) UNIQUE / PRIMARY KEY key -/
+def constraintsHold (cat : Catalog) (v : View) : Bool :=
+  v.all (fun r => match findTable cat r.table with
+    | Option.none => true
+    | some ts => notNullOk ts.cols r.vals && uniqueOk Option.none v ts (some r.rid) r.vals)
 
 /-! ## operations of a history -/
 
@@ -328,26 +505,6 @@ inductive Op where
 
 /-! ## 2. MVCC machine -/
 
-structure Defects where
-  /-- `Tuple::add_version_with` writes the header `(original xmin, xmax = None)`: every version carries the inserter's
-      id, is built on the latest physical values and clears the delete mark (pinned by `test_session_rollback_updates`) -/
-  updateKeepsInserterXmin : Bool := false
-  /-- `record_write` is never called: write sets are empty, commit validation cannot fail -/
-  writeSetNeverRecorded : Bool := false
-  /-- `Snapshot.xmax = None` while `last_committed = 0` (fixed) -/
-  xmaxNoneSeesAll : Bool := false
-  /-- `parse_for_snapshot` walks the deltas of a row the reader itself deleted (fixed) -/
-  ownDeleteWalksDeltas : Bool := false
-  /-- `Tuple::delete` returns early when a delete mark exists, even a rolled-back one (fixed) -/
-  deleteKeepsStaleXmax : Bool := false
-  /-- the header has one `xmax` slot: a second deleter overwrites the first one's mark -/
-  deleteMarkSingleSlot : Bool := false
-  /-- a statement failing inside a session keeps the effects of the rows processed before the failure -/
-  stmtNotAtomicInSession : Bool := false
-  deriving Repr
-
-def Defects.none : Defects := {}
-
 structure Version where
   creator : Nat
   vals : List Val
@@ -360,22 +517,6 @@ structure Row where
   versions : List Version
   deleters : List Nat
   deriving Repr
-
-structure Snapshot where
-  xid : Nat
-  xmax : Option Nat
-  active : List Nat
-  aborted : List Nat
-  deriving Repr
-
-/-- `Snapshot::is_committed_before_snapshot` -/
-def Snapshot.cb (s : Snapshot) (t : Nat) : Bool :=
-  (match s.xmax with
-   | some m => !(decide (m < t))
-   | none => true) && !s.active.contains t && !s.aborted.contains t
-
-/-- `t`'s work is visible to `s`: own or committed before -/
-def Snapshot.sees (s : Snapshot) (t : Nat) : Bool := t == s.xid || s.cb t
 
 /-- `TupleReader::parse_for_snapshot`: the values of the row for this snapshot -/
 def rowVisible (D : Defects) (s : Snapshot) (r : Row) : Option (List Val) :=
@@ -451,6 +592,8 @@ structure State where
   clog : List (Nat × List Rid)
   sessions : List (String × Nat)
   clock : Nat
+  /-- the physical unique indexes (maintained only when an index defect is on, see `Defects.usesIndex`) -/
+  index : Index := []
   deriving Repr
 
 def State.init (cat : Catalog) : State :=
@@ -494,6 +637,21 @@ def State.commitTxn (σ : State) (tid : Nat) : State × Bool :=
 def State.abortTxn (σ : State) (tid : Nat) : State :=
   { σ with txns := setStatus σ.txns tid .aborted }
 
+/-- commit as the sessions see it: first-committer-wins validation, then the constraints are re-checked on what the
+    committed database would become; `none` = committed -/
+def State.commitC (D : Defects) (σ : State) (tid : Nat) : State × Option Err :=
+  if (σ.commitTxn tid).2 then
+    if !D.uniqueNotRecheckedAtCommit &&
+        !constraintsHold σ.cat (view D ((σ.commitTxn tid).1.freshSnap D) (σ.commitTxn tid).1.rows) then
+      (σ.abortTxn tid, some .constraint)
+    else ((σ.commitTxn tid).1, Option.none)
+  else ((σ.commitTxn tid).1, some .conflict)
+
+def outOfCommit (r : Option Err) (o : Out) : Out :=
+  match r with
+  | Option.none => o
+  | some e => .refused e
+
 def State.snapOf (σ : State) (tid : Nat) : Snapshot :=
   match σ.txns[tid]? with
   | some t => t.snap
@@ -503,7 +661,9 @@ def State.snapOf (σ : State) (tid : Nat) : Snapshot :=
 def State.write (D : Defects) (σ : State) (tid : Nat) (es : List Effect) : State :=
   { σ with rows := applyEffects D (σ.snapOf tid) σ.rows es,
            txns := if D.writeSetNeverRecorded then σ.txns
-                   else σ.txns.modify tid (fun t => { t with ws := t.ws ++ es.map Effect.rid }) }
+                   else σ.txns.modify tid (fun t => { t with ws := t.ws ++ es.map Effect.rid }),
+           index := if D.usesIndex then ixApplyAll D σ.cat (σ.snapOf tid) (view D (σ.snapOf tid) σ.rows) σ.index es
+                    else σ.index }
 
 def lookup (k : String) : List (String × α) → Option α
   | [] => Option.none
@@ -515,7 +675,8 @@ def erase (k : String) : List (String × α) → List (String × α)
 
 /-- one statement of transaction `tid` inside a session -/
 def State.stmt (D : Defects) (σ : State) (tid : Nat) (j0 : Nat) (st : Stmt) : State × Plan :=
-  let p := planStmt σ.cat σ.clock j0 (view D (σ.snapOf tid) σ.rows) st
+  let pb : Option Probe := if D.usesIndex then some ⟨D, σ.snapOf tid, σ.cat, σ.index⟩ else Option.none
+  let p := planStmt pb σ.cat σ.clock j0 (view D (σ.snapOf tid) σ.rows) st
   if p.out.isErr && !D.stmtNotAtomicInSession then (σ, p) else (σ.write D tid p.effs, p)
 
 /-- statements of a batch, stopping at the first failure -/
@@ -542,8 +703,8 @@ def stepCore (D : Defects) (σ : State) : Op → State × Out
     match lookup s σ.sessions with
     | Option.none => (σ, .noSession)
     | some tid =>
-      let (σ1, ok) := σ.commitTxn tid
-      (σ1.endSession s, if ok then .ok else .conflict)
+      let (σ1, r) := σ.commitC D tid
+      (σ1.endSession s, outOfCommit r .ok)
   | .rollback s =>
     match lookup s σ.sessions with
     | Option.none => (σ, .noSession)
@@ -563,15 +724,17 @@ def stepCore (D : Defects) (σ : State) : Op → State × Out
     let (σ2, p) := σ1.stmt D tid 0 st
     if p.out.isErr then (σ2.abortTxn tid, .stmt p.out)
     else
-      let (σ3, ok) := σ2.commitTxn tid
-      (σ3, if ok then .stmt p.out else .conflict)
+      let (σ3, r) := σ2.commitC D tid
+      (σ3, outOfCommit r (.stmt p.out))
   | .batch sts =>
     let (σ1, tid) := σ.beginTxn D
     match State.batch D σ1 tid 0 sts with
     | (σ2, _, some e) => (σ2.abortTxn tid, .batchErr e)
     | (σ2, outs, Option.none) =>
-      let (σ3, ok) := σ2.commitTxn tid
-      (σ3, if ok then .batch outs else .batchErr .conflict)
+      let (σ3, r) := σ2.commitC D tid
+      (σ3, match r with
+        | Option.none => .batch outs
+        | some e => .batchErr e)
   | .tick =>
     let (σ1, tid) := σ.beginTxn D
     let (σ2, _) := σ1.commitTxn tid
@@ -631,9 +794,16 @@ def State.commitTxn (α : State) (a : ATxn) : State × Bool :=
   if conflict α.log a then (α, false)
   else ({ α with committed := takeOver α.committed a.view a.ws, log := α.log ++ [(a.beginIdx, a.ws)] }, true)
 
+/-- commit as the sessions see it: additionally refused when the committed database would violate a constraint -/
+def State.commitC (α : State) (a : ATxn) : State × Option Err :=
+  if (α.commitTxn a).2 then
+    if !constraintsHold α.cat (α.commitTxn a).1.committed then (α, some .constraint)
+    else ((α.commitTxn a).1, Option.none)
+  else (α, some .conflict)
+
 /-- a statement is atomic: a failing one contributes no effect -/
 def stmt (cat : Catalog) (clock : Nat) (a : ATxn) (j0 : Nat) (st : Stmt) : ATxn × Plan :=
-  let p := planStmt cat clock j0 a.view st
+  let p := planStmt Option.none cat clock j0 a.view st
   if p.out.isErr then (a, p) else ({ a with effs := a.effs ++ p.effs }, p)
 
 def batch (cat : Catalog) (clock : Nat) : ATxn → Nat → List Stmt → ATxn × List SOut × Option Err
@@ -652,8 +822,8 @@ def stepCore (α : State) : Op → State × Out
     match lookup s α.sessions with
     | Option.none => (α, .noSession)
     | some a =>
-      let (α1, ok) := α.commitTxn a
-      ({ α1 with sessions := erase s α1.sessions }, if ok then .ok else .conflict)
+      let (α1, r) := α.commitC a
+      ({ α1 with sessions := erase s α1.sessions }, outOfCommit r .ok)
   | .rollback s =>
     match lookup s α.sessions with
     | Option.none => (α, .noSession)
@@ -672,14 +842,16 @@ def stepCore (α : State) : Op → State × Out
     let (a', p) := stmt α.cat α.clock α.beginTxn 0 st
     if p.out.isErr then (α, .stmt p.out)
     else
-      let (α1, ok) := α.commitTxn a'
-      (α1, if ok then .stmt p.out else .conflict)
+      let (α1, r) := α.commitC a'
+      (α1, outOfCommit r (.stmt p.out))
   | .batch sts =>
     match batch α.cat α.clock α.beginTxn 0 sts with
     | (_, _, some e) => (α, .batchErr e)
     | (a', outs, Option.none) =>
-      let (α1, ok) := α.commitTxn a'
-      (α1, if ok then .batch outs else .batchErr .conflict)
+      let (α1, r) := α.commitC a'
+      (α1, match r with
+        | Option.none => .batch outs
+        | some e => .batchErr e)
   | .tick => ({ α with log := α.log ++ [(α.log.length, [])] }, .ok)
   | .nop => (α, .none)
 
